@@ -183,7 +183,9 @@ def execute(case, ctx):
         for fn, why in check_I1(pre, post, twin, names):
             viol("I1-file-integrity", f"{why.split(' (')[0].split(',')[0]}:{act}@{kind}", f"{where}: {fn}: {why}\n--- content now\n{post.get(fn, b'')[:400].decode('utf-8', 'replace')}")
         # ---- restart: a plain next session on the surviving directory
-        post2, res2 = sim.run_session(ctx, "plugin", post, {"flags": None, "fmt": {"kind": "black"}})
+        # (session start only: pytest_configure prunes '*-new.*'; the tests are not run, because re-running them would
+        #  outsource the same data again and hide a reference whose file was just pruned)
+        post2, res2 = sim.run_session(ctx, "plugin", post, {"flags": None, "fmt": {"kind": "black"}, "argv": ["--collect-only"]})
         ctx.count("restarts")
         for fn, why in check_I1(pre, post2, twin, names):
             viol("I1-file-integrity", f"{why.split(' (')[0].split(',')[0]}:{act}@{kind}", f"{where}, after restart: {fn}: {why}")
